@@ -323,6 +323,9 @@ def run_history(ctx, kind, data, fmt, ops, tmpdir, rng):
                 src.rewind()
                 m.pos = 0
             elif name in ("pos", "pos_s", "pos_ms"):
+                if name == "pos" and isinstance(op[1], str):
+                    # an integer of several thousand digits (written symbolically in the case so that it can be printed)
+                    op = (name, int(op[1][0] + "1") * 10 ** int(op[1].split("**")[1]))
                 if name == "pos":
                     x = Fraction(op[1])
                 elif name == "pos_s":
@@ -387,7 +390,7 @@ def random_ops(rng, n, rate):
         elif r < 0.55:
             ops.append(("getpos",))
         elif r < 0.65:
-            ops.append(("pos", rng.choice((0, 1, n, n + 1, -1, -n, -n - 1, rng.randint(-n - 2, n + 2), 10 ** 9, -10 ** 9))))
+            ops.append(("pos", rng.choice((0, 1, n, n + 1, -1, -n, -n - 1, rng.randint(-n - 2, n + 2), 10 ** 9, -10 ** 9, "+10**5000", "-10**4400"))))
         elif r < 0.75:
             t = rng.choice((0.0, rng.randint(-n - 1, n + 1) / rate, rng.uniform(-(n + 1) / rate, (n + 1) / rate),
                             (rng.randint(0, n) + 0.5) / rate, -1e-5, 1e-5, -(rng.randint(0, n) + 0.25) / rate))
